@@ -761,10 +761,18 @@ func c04PreGateWrites(w *World, r *Report, ns *ssa.Function, gate EdgeSet) {
 		if a.Kind != "store" {
 			continue
 		}
-		okp := false
-		if u, ok := a.Val.(*ssa.UnOp); ok {
-			if g, ok := u.X.(*ssa.Global); ok && (g.Name() == "clientStreamOpen" || g.Name() == "componentStreamOpen") {
-				okp = true
+		// (through the parameter of a constructor shared by both roles: every caller's argument)
+		srcs := originsAll(a.Val)
+		okp := len(srcs) > 0
+		for _, sv := range srcs {
+			isTpl := false
+			if u, ok := sv.(*ssa.UnOp); ok {
+				if g, ok := u.X.(*ssa.Global); ok && (g.Name() == "clientStreamOpen" || g.Name() == "componentStreamOpen") {
+					isTpl = true
+				}
+			}
+			if !isTpl {
+				okp = false
 			}
 		}
 		r.Check(okp, "O2", w.funcKey(a.Fn)+"#store:openStatement", w.ipos(a.Instr), "stream-open statement does not come from the package-level header templates", "header template global")
